@@ -176,7 +176,8 @@ func supervise(exe, id, tier, replay, dir string, seed int, level string) int {
 		return 1
 	}
 	cur, _ := filepath.Glob(filepath.Join(scratch, "current-*.json"))
-	os.MkdirAll(filepath.Join(dir, "replays"), 0o755)
+	outDir := explore.OutDir(dir)
+	os.MkdirAll(filepath.Join(outDir, "replays"), 0o755)
 	findings := map[string]explore.Finding{}
 	for _, f := range explore.LoadFindings(dir) {
 		if f.Property == id && f.Status == "finding" {
@@ -235,7 +236,7 @@ func supervise(exe, id, tier, replay, dir string, seed int, level string) int {
 		v.Count = 1
 		samples = append(samples, json.RawMessage(v.Case))
 		name := fmt.Sprintf("%s-stop-%016x.json", id, explore.Hash(string(v.Case)))
-		path := filepath.Join(dir, "replays", name)
+		path := filepath.Join(outDir, "replays", name)
 		vb, _ := json.MarshalIndent(v, "", " ")
 		os.WriteFile(path, vb, 0o644)
 		if kf, ok := findings[v.Sig]; ok {
@@ -265,8 +266,8 @@ func supervise(exe, id, tier, replay, dir string, seed int, level string) int {
 		"assumptions": []string{}, "wall_s": time.Since(t0).Seconds(), "violations": reported,
 	}
 	eb, _ := json.MarshalIndent(ev, "", " ")
-	os.MkdirAll(filepath.Join(dir, "evidence"), 0o755)
-	os.WriteFile(filepath.Join(dir, "evidence", id+".json"), eb, 0o644)
+	os.MkdirAll(filepath.Join(outDir, "evidence"), 0o755)
+	os.WriteFile(filepath.Join(outDir, "evidence", id+".json"), eb, 0o644)
 	if reported > 0 {
 		return 1
 	}
